@@ -48,4 +48,5 @@ def main (args : List String) : IO UInt32 := do
     match storeInit backend with
     | some st => loopState stdin stdout storeStep st; return 0
     | none => IO.eprintln "bad backend"; return 2
+  | "route" :: _ => loopState stdin stdout routeStep Drand.Daemon.State.init; return 0
   | _ => IO.eprintln "usage: vdriver <engine>"; return 2
